@@ -130,6 +130,14 @@ def sql_text(q, style):
     lim = (" LIMIT %d" % q["limit"]) if q["limit"] is not None else ""
     off = (" OFFSET %d" % q["offset"]) if q["offset"] else ""
     core = "SELECT %s FROM %s%s%s%s%s" % (", ".join(proj), table, where, order, lim, off)
+    if style in ("two_ctes", "two_ctes_rev"):
+        # a second semantic sub-select in the same statement that selects the same fields under OTHER aliases (and is not used by the
+        # outer query): nothing of one sub-select may leak into the other
+        other = "SELECT %s FROM %s%s" % (", ".join("%s AS z%d" % ("%s.%s" % (m, f), i) for i, (m, f, a) in enumerate(q["fields"])), table, where)
+        ctes = ["other AS (%s)" % other, "q AS (%s)" % core]
+        if style == "two_ctes_rev":
+            ctes.reverse()
+        return "WITH %s SELECT * FROM q" % ", ".join(ctes)
     if style == "cte":
         return "WITH q AS (%s) SELECT * FROM q" % core
     if style == "subselect":
@@ -243,7 +251,7 @@ def run(c):
             try:
                 res = L.sql(text)
                 got_cols = [d[0] for d in res.description]
-                got = dbutil.canon_rows(res.fetchall(), ordered and st not in ("cte", "subselect"))
+                got = dbutil.canon_rows(res.fetchall(), ordered and st not in ("cte", "subselect", "two_ctes", "two_ctes_rev"))
                 err = None
             except Exception as e:
                 got_cols, got, err = None, None, e
@@ -251,7 +259,7 @@ def run(c):
             # renaming aliases back and putting the columns of both paths in one order
             rename = {a: f for m, f, a in q["fields"] if a}
             exp_names = sorted((a or f) for m, f, a in q["fields"])
-            ok = err is None and sorted(got_cols) == exp_names and aligned(got_cols, got, rename, ordered and st not in ("cte", "subselect")) == aligned(want_cols, want, {}, ordered and st not in ("cte", "subselect"))
+            ok = err is None and sorted(got_cols) == exp_names and aligned(got_cols, got, rename, ordered and st not in ("cte", "subselect", "two_ctes", "two_ctes_rev")) == aligned(want_cols, want, {}, ordered and st not in ("cte", "subselect", "two_ctes", "two_ctes_rev"))
             if ok:
                 nontrivial += len(want_rows) > 1
                 continue
@@ -318,7 +326,7 @@ def unselected_where_column(q):
 
 
 def styles_for(q):
-    st = ["qualified", "from_metrics", "cte", "subselect"]
+    st = ["qualified", "from_metrics", "cte", "subselect", "two_ctes", "two_ctes_rev"]
     if q["single"]:
         st += ["unqualified"]
         if q["filters"]:
